@@ -4,6 +4,7 @@ C16 (companion) - the IEEE facts of the dyadic model proved inside the model: `r
 bits; it is monotone, idempotent, odd, the identity on |k| <= 2^53; `Exact53` is characterised
 exactly (at most 53 significant bits, any magnitude).  Helper lemmas: Lemmas/C16Round.lean.
 -/
+import Mathlib.Tactic.NormNum
 import RigModel.Lemmas.C16Round
 set_option linter.unusedSimpArgs false
 set_option linter.unusedVariables false
@@ -147,15 +148,63 @@ theorem round53_nearest_even (k : Int) :
 /-- no multiple of the ulp is closer, and one equally close means the chosen significand is even -/
 theorem round53_nearest_on_grid (k t : Int) :
     |k - round53Val k| ≤ |k - t * 2 ^ ulpExp k| ∧
-    (t ≠ (round53 k).m → |k - t * 2 ^ ulpExp k| = |k - round53Val k| → (round53 k).m % 2 = 0) := by
-  rw [round53Val_eq, round53_m]
-  exact ⟨isRne_nearest (by positivity) (rne_isRne k _) t,
-    fun ht he => isRne_tie (by positivity) (rne_isRne k _) t ht he⟩
+    (t ≠ (round53 k).m → |k - t * 2 ^ ulpExp k| = |k - round53Val k| → (round53 k).m % 2 = 0) :=
+  round53_grid k t
+
+/-- **`round53` is IEEE round-to-nearest, ties-to-even among ALL 53-bit dyadics** (any exponent):
+no `y = m * 2^e` with `|m| <= 2^53` is closer to `k` than `round53Val k`, and if a different one is
+equally close then the significand chosen by `round53` is even. -/
+theorem round53_nearest_all (k : Int) (y : Dy) (hy : y.m.natAbs ≤ 2 ^ 53) :
+    |(k : ℚ) - (round53Val k : ℚ)| ≤ |(k : ℚ) - y.toRat| ∧
+    (|(k : ℚ) - y.toRat| = |(k : ℚ) - (round53Val k : ℚ)| → y.toRat ≠ (round53Val k : ℚ) →
+      (round53 k).m % 2 = 0) := by
+  rcases Nat.eq_zero_or_pos (ulpExp k) with hs | hs
+  · have hR : round53Val k = k := by
+      rw [round53Val_eq, hs, rne_zero]; simp
+    rw [hR]
+    simp only [sub_self, abs_zero]
+    refine ⟨abs_nonneg _, ?_⟩
+    intro e1 e2
+    exfalso; apply e2
+    have := abs_eq_zero.mp e1
+    linarith
+  · rcases lt_trichotomy k 0 with hk | hk | hk
+    · have hs' : 0 < ulpExp (-k) := by rw [ulpExp_neg]; exact hs
+      have hy' : (⟨-y.m, y.e⟩ : Dy).m.natAbs ≤ 2 ^ 53 := by simpa using hy
+      obtain ⟨a, b⟩ := nearest_pos (-k) (by omega) hs' ⟨-y.m, y.e⟩ hy'
+      have ey : (⟨-y.m, y.e⟩ : Dy).toRat = -y.toRat := by unfold Dy.toRat; push_cast; ring
+      rw [ey, round53Val_neg] at a b
+      have e1 : ((-k : Int) : ℚ) - ((-round53Val k : Int) : ℚ) = -((k : ℚ) - (round53Val k : ℚ)) := by
+        push_cast; ring
+      have e2 : ((-k : Int) : ℚ) - -y.toRat = -((k : ℚ) - y.toRat) := by push_cast; ring
+      rw [e1, e2, abs_neg, abs_neg] at a b
+      refine ⟨a, ?_⟩
+      intro h1 h2
+      have := b h1 (by
+        intro hc; apply h2
+        have : ((-round53Val k : Int) : ℚ) = -(round53Val k : ℚ) := by push_cast; ring
+        rw [this] at hc; linarith)
+      rw [round53_m_neg] at this
+      omega
+    · subst hk
+      exfalso
+      unfold ulpExp bitLen at hs; simp at hs
+    · exact nearest_pos k hk hs y hy
 
 /-! non-vacuity / concrete ties: 2^53+1 is a tie rounded down to the even 2^52 * 2, 2^53+3 is a
 tie rounded up to the even (2^52+2) * 2, and a 64-bit value with trailing zeros is exact -/
 example : round53Val (2 ^ 53 + 1) = 2 ^ 53 ∧ round53Val (2 ^ 53 + 3) = 2 ^ 53 + 4 ∧
     ulpExp (2 ^ 53 + 1) = 1 ∧ Exact53 ((2 ^ 53 - 1) * 2 ^ 10) ∧ ¬ Exact53 (2 ^ 63 - 1) ∧
     round53Val (2 ^ 63 - 1) = 2 ^ 63 := by decide +kernel
+
+/-- the tie clause of `round53_nearest_all` is not vacuous: `2^53 + 2 = (2^52+1) * 2` is as close to
+`2^53 + 1` as the result `2^53` and different from it -/
+example : (⟨2 ^ 52 + 1, 1⟩ : Dy).m.natAbs ≤ 2 ^ 53 ∧
+    |(((2 ^ 53 + 1 : Int)) : ℚ) - (⟨2 ^ 52 + 1, 1⟩ : Dy).toRat| =
+      |(((2 ^ 53 + 1 : Int)) : ℚ) - (round53Val (2 ^ 53 + 1) : ℚ)| ∧
+    (⟨2 ^ 52 + 1, 1⟩ : Dy).toRat ≠ (round53Val (2 ^ 53 + 1) : ℚ) := by
+  have h : round53Val (2 ^ 53 + 1) = 2 ^ 53 := by decide +kernel
+  rw [h]
+  refine ⟨by decide, ?_, ?_⟩ <;> norm_num [Dy.toRat]
 
 end Rig.C16
